@@ -363,7 +363,7 @@ def rff(S, what, n1=2, n2=3, d=2, D=2):
     # (the covariance goes through chol(I - R^T (K + s I)^-1 R): nested square roots of trigonometric polynomials, not decided)
 
 
-def sgpr(S, n, M, m, diag_corr, what):
+def sgpr(S, n, M, m, diag_corr, what, noise="homoskedastic"):
     """inducing-point kernel = Nystrom matrix; objective = Titsias bound; prediction = dense conditional on the Nystrom matrix"""
     N = M + n + m  # labels: inducing, train, test
     Gs, Gc = S.factor("g", N)
@@ -373,7 +373,12 @@ def sgpr(S, n, M, m, diag_corr, what):
     x = labels(M, M + n)
     xs = labels(M + n, N)
     y = S.randn(n); Y = S.sym_tensor(y, "y")
-    lik = gpytorch.likelihoods.GaussianLikelihood()
+    if noise == "fixed":
+        # heteroskedastic observation noise: the bound's trace term weighs each point by its own noise
+        lik = gpytorch.likelihoods.FixedNoiseGaussianLikelihood(S.rand(n, lo=0.1, hi=0.9))
+        Rn = S.sym_tensor(lik.noise_covar.noise, "fixed", lo=1e-6)
+    else:
+        lik = gpytorch.likelihoods.GaussianLikelihood()
     declare_params(S, lik, "lik_")
 
     class Model(gpytorch.models.ExactGP):
@@ -400,7 +405,21 @@ def sgpr(S, n, M, m, diag_corr, what):
     Qsx = Ksz @ A
     Qss = Ksz @ As
     with S.mode(), gpytorch.settings.sgpr_diagonal_correction(diag_corr):
-        sig = as_sym_arr(SH.get(lik.noise)).reshape(-1)[0]
+        sig = as_sym_arr(SH.get(lik.noise)).reshape(-1)[0] if noise != "fixed" else None
+        if what == "objective" and noise == "fixed":
+            model.train(); lik.train()
+            mll = gpytorch.mlls.ExactMarginalLogLikelihood(lik, model)
+            val = mll(model(x), y)
+            Cy = Qxx.copy()
+            for i in range(n):
+                Cy[i, i] = Cy[i, i] + Rn[i]
+            sol = gauss_inverse_solve(Cy, Y.reshape(n, 1))
+            quad = np.sum(Y.reshape(n, 1) * sol)
+            det = _det(Cy)[()]
+            trace = sum(((Ks[M + i, M + i] - Qxx[i, i]) / Rn[i] for i in range(n)), Sym.const(0.0))
+            bound = (quad + sym_log(det) + Sym.const(n * LOG2PI)) * Sym.const(-0.5) - trace / Sym.const(2.0)
+            S.prove_eq(val, bound / Sym.const(float(n)), "SGPR objective with per-point noise = log N(y|0,Q+D) - 1/2 sum_i (K_ii-Q_ii)/d_i, / n")
+            return
         if what == "kernel":
             model.eval()
             Kxx_t = dense(model.covar_module(x, x))
@@ -559,6 +578,7 @@ def scenarios(tier, seed):
     for dc in (False, True):
         add("sgpr", n=2, M=2, m=1, diag_corr=dc, what="kernel")
     add("sgpr", n=2, M=1, m=1, diag_corr=False, what="objective")
+    add("sgpr", n=2, M=1, m=1, diag_corr=False, what="objective", noise="fixed")
     add("sgpr", n=2, M=1, m=1, diag_corr=False, what="predict")
     if tier != "quick":
         add("sgpr", n=2, M=1, m=1, diag_corr=True, what="predict")  # ~80 s of solver time for two obligations: thorough tier only
